@@ -133,7 +133,7 @@ pub fn run(ctx: &Ctx, rep: &mut Report) {
     let th = thresholds(ctx.thorough());
     let n_b = th.len() as u64 * ctx.n(6, 60);
     // C: random sizes
-    let n_c = ctx.n(600, 20_000);
+    let n_c = ctx.n(1500, 20_000);
     for k in ctx.cases(n_small + n_b + n_c) {
         rep.cur_case = k;
         crate::ctx::begin_case(k);
